@@ -320,6 +320,7 @@ pub struct WriteError;
 pub struct Unit;
 // attribute value: the decimal rendering of an integer (std Display for the unsigned integer types), tracked by its value
 pub struct NumStr { pub v: Ghost<int> }
+impl NumStr { #[verifier::external_body] pub fn as_ref(&self) -> (r: NumStr) ensures r.v@ == self.v@ { unimplemented!() } }
 pub trait ToDec { spec fn dec_value(&self) -> int; fn to_dec_(&self) -> (r: NumStr) ensures r.v@ == self.dec_value(); }
 impl ToDec for usize { open spec fn dec_value(&self) -> int { *self as int } #[verifier::external_body] fn to_dec_(&self) -> (r: NumStr) { unimplemented!() } }
 impl ToDec for u64 { open spec fn dec_value(&self) -> int { *self as int } #[verifier::external_body] fn to_dec_(&self) -> (r: NumStr) { unimplemented!() } }
@@ -372,7 +373,7 @@ pub open spec fn rpc_node(id: MessageId, op: u64) -> WNode {
 pub struct Request { pub message_id: MessageId, pub operation: Operation }
 impl Request {
 //@extract id=request_write_xml file=netconf/src/message/rpc/mod.rs impl=/impl<O: Operation> WriteXml for Request<O>/ fn=write_xml rules=R1,R7 r7map=result
-//@+ sub=/.to_string().as_ref()=>.to_dec_()/
+//@+ optsub=/.to_string().as_ref()=>.to_dec_();;.to_string()=>.to_dec_()/
 //@sig pub fn write_xml(&self, writer: &mut Writer) -> (res: Result<(), WriteError>)
 //@contract
         ensures res is Ok ==> final(writer).nodes@ == old(writer).nodes@.push(rpc_node(self.message_id, self.operation.id)),   // OBL:C05.request.wire_message_id_is_the_request_id
